@@ -174,6 +174,32 @@ func runC02(env *core.Env) {
 	}
 	st.PerScenario["io-error-phase"] = faultPhase(env, "C02", f.SA, fcmds)
 	st.PerScenario["short-write-phase"] = shortWritePhase(env, "C02", f.SA, fcmds)
+	// requests that must be refused (a field too large for a log line): refused means the log is byte-identical
+	{
+		w := env.W0()
+		huge := strings.Repeat("h", 10*1024*1024+64)
+		var refused int
+		for _, r := range []core.Req{
+			core.R("", "--json", "new", "task").In(jsonStr(map[string]string{"title": "big", "body": huge})),
+			core.R("", "--json", "new", "task", "--title", "big", "--body-stdin").In(huge),
+			core.R("", "--json", "set", f.T1).In(jsonStr(map[string]string{"body": huge, "state": "blocked"})),
+			core.R("", "--json", "new", "epic").In(jsonStr(map[string]string{"title": huge})),
+		} {
+			f.SA.Materialize(w.Proj)
+			q := r
+			q.Cwd = w.Proj
+			res := w.Run(q)
+			after, _ := core.Snapshot(w.Proj)
+			if res.Exit != 0 {
+				refused++
+				if string(after.Log()) != string(f.SA.Log()) {
+					report(env, "C02 kind=refused-command-changed-the-log cmd="+opClass(r), fmt.Sprintf("`%s ...` exits %d (%s) but the log went from %d to %d bytes", strings.Join(r.Args, " "), res.Exit, clipS(string(res.Err), 80), len(f.SA.Log()), len(after.Log())),
+						mkTrace(f.SA, "over-long field", []core.Req{r}, Assert{Kind: "exit_nonzero", Step: 1}, Assert{Kind: "log_differs", Step: 1, Other: 0}))
+				}
+			}
+		}
+		st.PerScenario["refused-oversize-requests"] = map[string]interface{}{"requests": 4, "refused": refused}
+	}
 	exploreMany(env, st, "C02", jobs, 8)
 	finishSched(env, st, "every unordered pair over a 20-command alphabet (new, new with claim, set with 1/3/result fields, claim, claim <id>, sequence, sequence rm, chain, plan, prune, compact, init, reopen, unclaim, ...) plus init/lock-file-missing races and triples, every interleaving of their hooked steps up to the preemption bound (1; 2 on the hot list); oracle: some order of the commands that exited 0, consistent with real time, reproduces replies and final observable state when run one at a time on the real code; log is whole JSON lines; nobody blocks in flock")
 }
